@@ -11,8 +11,8 @@ def plan(tier, seed, scale):
     return {"n_cases": sizes(tier, scale, 3200, 80000), "variants": 4,
             "profiles": ["data", "data_flat", "core", "flat", "par", "par_flat", "events", "events_flat", "deep", "big"],
             "remote_cases": int((32 if tier == "quick" else 1600) * scale),
-            "dfs_cases": int((96 if tier == "quick" else 4000) * scale), "dfs_cap": 300 if tier == "quick" else 20000,
-            "dfs_budget_s": 1.5 if tier == "quick" else 60.0,
+            "dfs_cases": int((96 if tier == "quick" else 1600) * scale), "dfs_cap": 300 if tier == "quick" else 20000,
+            "dfs_budget_s": 1.5 if tier == "quick" else 20.0,
             "timeout_s": 600 if tier == "quick" else 7200}
 
 
